@@ -42,6 +42,42 @@ pub fn run_op2(op: &str, a: &[&str]) -> String {
                 None => "panic".to_string(),
             }
         }
+        // eval7_block a b c : all seven-card sets whose three lowest card codes are a < b < c, each presented in an
+        // order chosen by its card sum; digest of the power indexes and a histogram of the reported categories
+        "eval7_block" => {
+            let (x, y, z) = (n(0), n(1), n(2));
+            match guarded(|| {
+                let mut h: u64 = 0xcbf29ce484222325;
+                let mut cnt = 0u64;
+                let mut cats: std::collections::BTreeMap<String, u64> = std::collections::BTreeMap::new();
+                for d in (z + 1)..52 {
+                    for e in (d + 1)..52 {
+                        for f in (e + 1)..52 {
+                            for g in (f + 1)..52 {
+                                let mut cs = [x, y, z, d, e, f, g];
+                                let rot = (x + y + z + d + e + f + g) % 7;
+                                cs.rotate_left(rot);
+                                if (d + g) % 2 == 1 {
+                                    cs.swap(1, 5);
+                                }
+                                let cards: [Card; 7] = [card_of(cs[0]), card_of(cs[1]), card_of(cs[2]), card_of(cs[3]), card_of(cs[4]), card_of(cs[5]), card_of(cs[6])];
+                                let mh: MadeHand = cards.into();
+                                h = (h ^ mh.power_index() as u64).wrapping_mul(0x100000001b3);
+                                *cats.entry(format!("{:?}", mh.hand_type())).or_insert(0) += 1;
+                                cnt += 1;
+                            }
+                        }
+                    }
+                }
+                let names = ["HighCard", "Pair", "TwoPair", "Trips", "Straight", "Flush", "FullHouse", "Quads", "StraightFlush"];
+                let hist: Vec<String> = names.iter().map(|nm| cats.get(*nm).copied().unwrap_or(0).to_string()).collect();
+                let known: u64 = names.iter().map(|nm| cats.get(*nm).copied().unwrap_or(0)).sum();
+                format!("ok n={} digest={} cats={} other={}", cnt, h, hist.join(","), cnt - known)
+            }) {
+                Some(s) => s,
+                None => "panic".to_string(),
+            }
+        }
         "iter" => op_iter(a),
         _ => match crate::ops3::run_op3(op, a) {
             Some(s) => s,
